@@ -27,7 +27,8 @@ COQ = os.path.join(ROOT, "coq")
 CACHE = os.path.join(ROOT, ".cache")
 TARGET = os.path.join(CACHE, "target")
 HARNESS = os.path.join(ROOT, "harness")
-REPO = "/repo"
+REPO = os.environ.get("VERIF_REPO", "/repo").rstrip("/")
+ALT = REPO != "/repo"  # evaluation against a scratch worktree (seeded-change testing): own crate copies + target dir
 FORBIDDEN = re.compile(
     r"\b(Admitted|admit|Axiom|Axioms|Parameter|Parameters|Conjecture|Conjectures|Hypothesis|Hypotheses|Variable|Variables|"
     r"Admit Obligations|bypass_check|Unset Guard Checking|Unset Positivity Checking|Unset Universe Checking|type-in-type|impredicative-set|native_compute)\b"
@@ -183,10 +184,40 @@ def print_assumptions(pid, props_file, names, workdir):
 
 
 # ---------------------------------------------------------------- harness
+def alt_base():
+    return os.path.join(CACHE, "alt", hashlib.sha1(REPO.encode()).hexdigest()[:10])
+
+
+def target_dir():
+    return os.path.join(alt_base(), "target") if ALT else TARGET
+
+
+def alt_crate(crate):
+    """Copy the harness crates next to an alternative target dir with /repo paths rewritten."""
+    base = alt_base()
+    os.makedirs(base, exist_ok=True)
+    if not os.path.exists(os.path.join(base, "target")) and os.path.exists(TARGET):
+        subprocess.run(["cp", "-a", TARGET, os.path.join(base, "target")])
+    for name in ("harness", "harness-sdk"):
+        src = os.path.join(ROOT, name)
+        if not os.path.isdir(src):
+            continue
+        dst = os.path.join(base, name)
+        subprocess.run(["rsync", "-a", "--delete", "--exclude", "target", "--exclude", "Cargo.lock", src + "/", dst + "/"])
+        for rel in ("Cargo.toml", ".cargo/config.toml"):
+            f = os.path.join(dst, rel)
+            if os.path.exists(f):
+                t = open(f).read().replace('"/repo/', '"' + REPO + "/").replace("/verif/.cache/target", os.path.join(base, "target"))
+                open(f, "w").write(t)
+    return os.path.join(base, os.path.basename(crate))
+
+
 def cargo_build(bins, release=False, crate=HARNESS, timeout=3600):
+    if ALT:
+        crate = alt_crate(crate)
     lock_src = os.path.join(REPO, "Cargo.lock")
     lock_dst = os.path.join(crate, "Cargo.lock")
-    with Lock("cargo"):
+    with Lock("cargo-alt" if ALT else "cargo"):
         if not os.path.exists(lock_dst):
             subprocess.run(["cp", lock_src, lock_dst])
         cmd = ["cargo", "build", "--offline", "--quiet"] + (["--release"] if release else [])
@@ -201,7 +232,7 @@ def cargo_build(bins, release=False, crate=HARNESS, timeout=3600):
 
 
 def bin_path(name, release=False):
-    return os.path.join(TARGET, "release" if release else "debug", name)
+    return os.path.join(target_dir(), "release" if release else "debug", name)
 
 
 def run_bin(name, seed, n, release=False, extra=(), timeout=3600):
@@ -470,8 +501,9 @@ def check(pid, tier="quick", seed=None, replay=None):
         wall_s=round(time.time() - t0, 2),
         violations=len(violations),
     )
-    os.makedirs(os.path.join(ROOT, "evidence"), exist_ok=True)
-    with open(os.path.join(ROOT, "evidence", pid + ".json"), "w") as fh:
+    outroot = alt_base() if ALT else ROOT  # runs against a scratch worktree never touch the committed evidence
+    os.makedirs(os.path.join(outroot, "evidence"), exist_ok=True)
+    with open(os.path.join(outroot, "evidence", pid + ".json"), "w") as fh:
         json.dump(evidence, fh, indent=1)
 
     # ---- report
@@ -480,8 +512,8 @@ def check(pid, tier="quick", seed=None, replay=None):
             hit = len(known_hits.get(k, []))
             log(f"KNOWN-FINDING: property={pid} {e['name']}: {e['what']} (hit by {hit} generated case(s) this run)")
     if violations:
-        os.makedirs(os.path.join(ROOT, "replays"), exist_ok=True)
-        rp = os.path.join(ROOT, "replays", f"{pid}-{seed}.json")
+        os.makedirs(os.path.join(outroot, "replays"), exist_ok=True)
+        rp = os.path.join(outroot, "replays", f"{pid}-{seed}.json")
         with open(rp, "w") as fh:
             json.dump(dict(property=pid, seed=seed, tier=tier, violations=[dict(what=d, **p) for d, p, _ in violations], cases=[c for _, p, _ in violations for c in p.get("cases", [])]), fh, indent=1)
         for d, _, _ in violations[:3]:
